@@ -245,6 +245,8 @@ pub struct Setup {
     pub geoip_file: Option<String>,
     /// the bytes of a MaxMind DB to load with `GeoIpLookup::from_file` (None: the empty lookup, seeded through the hook)
     pub geoip_db: Option<Vec<u8>>,
+    /// time-to-live of the entries of the DNS cache in seconds (the default never lets a seeded entry go stale)
+    pub dns_ttl_s: u64,
     /// the target of trace t is the sentinel address 90 + t (C18) instead of 203.0.113.x
     pub target_sentinel: bool,
 }
@@ -262,6 +264,7 @@ impl Default for Setup {
             geoip_mode: GeoIpMode::Off,
             geoip_file: None,
             geoip_db: None,
+            dns_ttl_s: 1 << 30,
             target_sentinel: false,
         }
     }
@@ -399,7 +402,7 @@ pub fn mk_sut(setup: &Setup) -> Sut {
         ResolveMethod::System,
         IpAddrFamily::Ipv4thenIpv6,
         Duration::from_millis(10),
-        Duration::from_secs(1 << 30),
+        Duration::from_secs(setup.dns_ttl_s),
     ))
     .expect("resolver");
     let infos: Vec<TraceInfo> = tracers
